@@ -214,3 +214,25 @@ fn kx_vec_target_advance_mut_beyond_capacity_panics() {
     unsafe { v.advance_mut(n) };
     assert!(false, "advance_mut beyond capacity returned");
 }
+
+// @ob props=C11,C12 tier=quick kind=Kbounded bound="inner Vec<u8> with capacity 4; limit <= 16" fns=Limit::chunk_mut,Limit::remaining_mut,Limit::advance_mut,Vec<u8>::chunk_mut
+#[kani::proof]
+#[kani::unwind(6)]
+fn kx_limit_over_a_chunk_shorter_than_the_limit() {
+    // real-type twin of V `impl BufMut for Limit<T>`: the inner target's current chunk may be
+    // SHORTER than the limit (growable target, chain boundary).  chunk_mut() is then the inner
+    // chunk, never a panic (seed C12-7 sliced the inner chunk with remaining_mut()).
+    let mut v: Vec<u8> = Vec::with_capacity(4);
+    kani::assume(v.capacity() == 4);
+    let n: usize = kani::any();
+    kani::assume(n <= 16);
+    let mut l = crate::BufMut::limit(&mut v, n);
+    assert!(crate::BufMut::remaining_mut(&l) == n);
+    let c = crate::BufMut::chunk_mut(&mut l).len();
+    assert!(c == if n < 4 { n } else { 4 });
+    let k: usize = kani::any();
+    kani::assume(k <= c);
+    unsafe { crate::BufMut::advance_mut(&mut l, k) };
+    assert!(crate::buf::Limit::limit(&l) == n - k && crate::BufMut::remaining_mut(&l) == n - k && l.get_ref().len() == k);
+    kani::cover!(n > 4 && k == 4);
+}
